@@ -338,6 +338,7 @@ def applyOp (s : St) (ws : List String) : St × String :=
   | ["spec.busstat"] => (s, "consistent")
   | ["spec.costscratch", _, _] => (s, "same")  -- C15: the cost does not depend on what earlier instructions left in the scratch registers
   | ["spec.alupure", _] => (s, "pure")  -- C08: the ALU is a function of (function, A, B, carry-in)
+  | ["spec.contkey"] => (s, "noop")  -- C15/C05: CONTINUE on a machine that is not stopped changes nothing
   | ["spec.cpuread", _] => (s, "pure")  -- the property itself: a read (here by a CPU instruction) changes no state
   | ["spec.irq"] => ({ s with m := m.keyInterrupt, bspec := s.bspec.keyIrq }, "ok")
   | ["spec.busd"] => (s, s.bspec.str)
